@@ -10,6 +10,29 @@ no Mathlib).  For every codec `X`:
 -/
 namespace DashLive.Bytes
 
+/-! ### sequencing -/
+/-- deliberately not a `rfl`-lemma: `simp` then records a rewrite step instead of
+asking the kernel for a definitional unfolding of the decoders -/
+theorem andThen_some {α β : Type} (a : α) (r : Bytes) (f : α → Bytes → Option β) :
+    andThen (some (a, r)) f = f a r := by unfold andThen; rfl
+
+theorem andThen_none {α β : Type} (f : α → Bytes → Option β) :
+    andThen (none : Option (α × Bytes)) f = none := by unfold andThen; rfl
+
+theorem andThen_eq_some_iff {α β : Type} {o : Option (α × Bytes)} {f : α → Bytes → Option β}
+    {b : β} : andThen o f = some b ↔ ∃ a r, o = some (a, r) ∧ f a r = some b := by
+  cases o with
+  | none => simp [andThen_none]
+  | some p =>
+    obtain ⟨a, r⟩ := p
+    rw [andThen_some]
+    constructor
+    · intro h; exact ⟨a, r, rfl, h⟩
+    · rintro ⟨a', r', h1, h2⟩
+      simp only [Option.some.injEq, Prod.mk.injEq] at h1
+      obtain ⟨rfl, rfl⟩ := h1
+      exact h2
+
 theorem encBE_length (n v : Nat) : (encBE n v).length = n := by
   induction n generalizing v with
   | zero => rfl
